@@ -61,6 +61,8 @@ pub struct RoundCfg {
     pub record_events: bool,
     /// keys written by thread t are restricted to k % threads == t (disjoint) when set
     pub disjoint: bool,
+    /// the i-th call of thread t uses the never-used key prefill + i * threads + t
+    pub fresh_keys: bool,
 }
 
 impl RoundCfg {
@@ -110,6 +112,9 @@ pub struct RoundResult {
     pub held_survived_retire: u64,
     pub held_failures: Vec<String>,
     pub final_len: usize,
+    /// element counter and size_ctl at quiescence
+    pub final_count: isize,
+    pub final_size_ctl: isize,
     pub cap_exceeded: bool,
 }
 
@@ -123,6 +128,9 @@ enum AnyMap {
     Set(crate::seq::Set),
 }
 
+/// workers of the current round that have arrived at the tight start (rounds run one at a time)
+static SPIN_START: std::sync::atomic::AtomicUsize = std::sync::atomic::AtomicUsize::new(0);
+
 fn worker(m: &AnyMap, cfg: &RoundCfg, tid: usize, seed: u64, bar: &Barrier) -> (Vec<Ev>, Vec<IterRec>) {
     hook::set_role(hook::ROLE_DELAY, tid as u16, seed);
     let mut rng = Rng::new(seed);
@@ -132,13 +140,24 @@ fn worker(m: &AnyMap, cfg: &RoundCfg, tid: usize, seed: u64, bar: &Barrier) -> (
     let total = cfg.mix.total() as u64;
     let facade = rng.below(4) as u8;
     bar.wait();
+    if cfg.fresh_keys {
+        // a tight start: the OS barrier releases threads microseconds apart, this spin barrier
+        // within tens of nanoseconds (the workers of such a round make one call each)
+        SPIN_START.fetch_add(1, std::sync::atomic::Ordering::SeqCst);
+        let t0 = std::time::Instant::now();
+        while SPIN_START.load(std::sync::atomic::Ordering::SeqCst) < cfg.threads && t0.elapsed().as_millis() < 200 {
+            std::hint::spin_loop();
+        }
+    }
     match m {
         AnyMap::Map(map) => {
             let long_guard = map.guard();
             let api = Api { map, facade, guard: &long_guard };
-            for _ in 0..cfg.ops {
+            for opi in 0..cfg.ops {
                 let mut key = rng.below(cfg.nkeys);
-                if cfg.disjoint {
+                if cfg.fresh_keys {
+                    key = cfg.prefill + (opi * cfg.threads + tid) as u64;
+                } else if cfg.disjoint {
                     key = key - key % cfg.threads as u64 + tid as u64;
                     if key >= cfg.nkeys {
                         key = tid as u64;
@@ -577,6 +596,7 @@ pub fn run_round(cfg: &RoundCfg, seed: u64) -> RoundResult {
     let am = Arc::new(am);
     let nthreads = cfg.threads + cfg.iter_threads + cfg.holder_threads;
     let bar = Arc::new(Barrier::new(nthreads));
+    SPIN_START.store(0, std::sync::atomic::Ordering::SeqCst);
     let stop = Arc::new(std::sync::atomic::AtomicBool::new(false));
     let cfg_a = Arc::new(cfg.clone());
     let mut workers = Vec::new();
@@ -699,6 +719,8 @@ pub fn run_round(cfg: &RoundCfg, seed: u64) -> RoundResult {
             let (a, entries) = inspect::audit(&d, Some(&hf), map.len(), map.is_empty());
             res.audit_failures = a.failures.clone();
             res.final_len = d.len;
+            res.final_count = d.count;
+            res.final_size_ctl = d.size_ctl;
             // public agreement: iter = keys = values = successful gets = len
             let mut it = api.iter();
             it.sort_by_key(|e| e.k);
@@ -752,6 +774,8 @@ pub fn run_round(cfg: &RoundCfg, seed: u64) -> RoundResult {
             let (a, _) = inspect::audit(&d, Some(&hf), set.len(), set.is_empty());
             res.audit_failures = a.failures.clone();
             res.final_len = d.len;
+            res.final_count = d.count;
+            res.final_size_ctl = d.size_ctl;
             let mut ks: Vec<u64> = set.iter(&g).map(|k| k.k).collect();
             ks.sort();
             let want: Vec<u64> = (0..cfg.nkeys).filter(|k| set.contains(&KQ(*k), &g)).collect();
